@@ -57,7 +57,7 @@ pub fn run(ctx: &Ctx) -> (&'static str, &'static str) {
     // r-th roots of unity: e(g1,g2) and a power
     els.push(("e(g1,g2) (r-th root of unity)".into(), e_g1_g2().clone()));
     els.push(("e(g1,g2)^5".into(), e_g1_g2().pow(&bu(5))));
-    for k in 0..ctx.tier.pick(8, 72) {
+    for k in 0..ctx.tier.pick(8, 300) {
         els.push((format!("seeded dense #{}", k), q12_from_coeffs(&(0..12).map(|_| rq(&mut rng)).collect::<Vec<_>>())));
     }
     // reference values (parallel)
